@@ -199,3 +199,10 @@ func (E *Engine) globalIsStable(g *ssa.Global) bool {
 	gi := E.globals[g]
 	return gi != nil && gi.storesOutsideInit == 0 && !gi.addrEscapes
 }
+
+// globalElemOnlyRead: no store to the variable or through an address derived from it outside
+// its package initialiser (elements may be read by index anywhere).
+func (E *Engine) globalElemOnlyRead(g *ssa.Global) bool {
+	gi := E.globals[g]
+	return gi != nil && gi.storesOutsideInit == 0 && !gi.fieldUnsafe
+}
